@@ -9,10 +9,10 @@
   statement that no input can make them end abnormally.
 
   * `C10_walk_total`: the listener never panics on a tree whose mandatory children are present (`wfTree`);
-    `wfTree` is what the grammar guarantees for every accepted input, and the driver re-validates it on
-    every accepted parse of every run (checks/c10.py) — the general proof from the recogniser's
-    conformance is not done here.
-  * `C10_prepare_total_partial`: hence no character string makes the model's processQuery front-end panic.
+  * `C10_accepted_trees_wf`: every tree the recogniser returns for the generated grammar is such a tree
+    (conformance of parse results + inversion of the rules involved); the driver still re-validates it on
+    every accepted parse of every run (checks/c10.py);
+  * `C10_prepare_total`: hence **no character string** makes the model's processQuery front end panic.
   * `C10_console_survives`: a session answers as many lines as were submitted before `:quit`, whatever the
     individual answers are (diagnostics included).
   Panics inside the ANTLR runtime, expr-lang or encoding/json are outside the model; they are searched
@@ -21,6 +21,7 @@
 import Cpf.Query.WF
 import Cpf.Query.Cli
 import Cpf.Lemmas.Console
+import Cpf.Lemmas.Conform
 
 namespace Cpf.Props.C10
 open Cpf.Query Cpf.Go Cpf.Generated
@@ -131,6 +132,18 @@ theorem C10_prepare_total_partial (hwf : AcceptedTreesWF) (cs : List Char) : (pr
         simp only [hs]
         split <;> rfl
   · rfl
+
+/-- Every tree the recogniser returns for the grammar generated from Query.g4 has the children the listener
+    dereferences (`Lemmas/Conform`: parse results conform to the grammar; inversion of the four rules involved,
+    which are looked up in the *regenerated* grammar by `decide`). -/
+theorem C10_accepted_trees_wf : AcceptedTreesWF := by
+  intro ts t ht
+  exact accepted_trees_wf _ _ ts t ht
+
+/-- **C10 (front end), unconditional**: no character string makes the model of lexer + parser + listener +
+    predicate expansion + condition structure end abnormally. -/
+theorem C10_prepare_total (cs : List Char) : (prepare cs).isPanic = false :=
+  C10_prepare_total_partial C10_accepted_trees_wf cs
 
 /-- **C10 (console)**: the session answers every complete line submitted before `:quit`, whatever each
     answer is (results or a diagnostic) and however stdin delivers the bytes. -/
